@@ -1,5 +1,7 @@
 import OxiModel.Filters
 import OxiModel.Spec.Pixel
+import OxiModel.LosslessProofs
+import OxiModel.FilterImage
 /-
   C03 — alpha optimisation may only change colour under fully transparent pixels.
 -/
@@ -112,6 +114,456 @@ theorem alphaEq_symm {p q : Px} (h : alphaEq p q) : alphaEq q p :=
   ⟨h.1.symm, fun hq => (h.2 (by rw [h.1]; exact hq)).symm⟩
 theorem alphaEq_trans {p q r : Px} (h1 : alphaEq p q) (h2 : alphaEq q r) : alphaEq p r :=
   ⟨h1.1.trans h2.1, fun hp => (h1.2 hp).trans (h2.2 (by rw [← h1.1]; exact hp))⟩
+
+/-- a stored pixel whose alpha bytes are all zero is fully transparent -/
+theorem transparent_px_alpha (ct : ColorType) (d : Nat) (px : Bytes) (ha : ct.hasAlpha = true)
+    (hd : d = 8 ∨ d = 16) (hlen : px.length = bdOf d * ct.channels)
+    (hz : (px.drop (bdOf d * ct.channels - bdOf d)).all (· = 0) = true) :
+    (colourOf ct d (samplesOf d px)).a = 0 := by
+  have hall : ∀ x ∈ px.drop (bdOf d * ct.channels - bdOf d), x = 0 := by
+    intro x hx; simpa using List.all_eq_true.mp hz x hx
+  rcases hd with rfl | rfl
+  · have hb : bdOf 8 = 1 := rfl
+    rw [hb] at hlen hall
+    cases ct with
+    | grayAlpha =>
+      obtain ⟨g, a, rfl⟩ := length_two px (by simpa [ColorType.channels] using hlen)
+      have : a = 0 := hall a (by simp [ColorType.channels])
+      subst this
+      simp [samplesOf, colourOf, scaleTo16]
+    | rgba =>
+      obtain ⟨r, g, b, a, rfl⟩ := length_four px (by simpa [ColorType.channels] using hlen)
+      have : a = 0 := hall a (by simp [ColorType.channels])
+      subst this
+      simp [samplesOf, colourOf, scaleTo16]
+    | gray t => simp [ColorType.hasAlpha] at ha
+    | rgb t => simp [ColorType.hasAlpha] at ha
+    | indexed p => simp [ColorType.hasAlpha] at ha
+  · have hb : bdOf 16 = 2 := rfl
+    rw [hb] at hlen hall
+    cases ct with
+    | grayAlpha =>
+      obtain ⟨g1, g2, a1, a2, rfl⟩ := length_four px (by simpa [ColorType.channels] using hlen)
+      have e1 : a1 = 0 := hall a1 (by simp [ColorType.channels])
+      have e2 : a2 = 0 := hall a2 (by simp [ColorType.channels])
+      subst e1 e2
+      simp [samplesOf, pairs16, colourOf, scaleTo16]
+    | rgba =>
+      obtain ⟨r1, r2, g1, g2, b1, b2, a1, a2, rfl⟩ := length_eight px (by simpa [ColorType.channels] using hlen)
+      have e1 : a1 = 0 := hall a1 (by simp [ColorType.channels])
+      have e2 : a2 = 0 := hall a2 (by simp [ColorType.channels])
+      subst e1 e2
+      simp [samplesOf, pairs16, colourOf, scaleTo16]
+    | gray t => simp [ColorType.hasAlpha] at ha
+    | rgb t => simp [ColorType.hasAlpha] at ha
+    | indexed p => simp [ColorType.hasAlpha] at ha
+
+/-- **Cleaning the alpha channel changes only invisible colour, for the whole image**: the result has
+    the same geometry and, at every stored position, the same alpha and - unless fully transparent -
+    the same colour (alpha optimisation's first step, `cleaned_alpha_channel`). -/
+theorem cleaned_alpha_visible (i j : Img) (n : Nat)
+    (hlen : i.data.length = n * i.bppBytes) (hd : i.ihdr.depth = 8 ∨ i.ihdr.depth = 16)
+    (h : cleanedAlphaChannel i = some j) : sameVisiblePicture i j := by
+  unfold cleanedAlphaChannel at h
+  cases ha : i.ihdr.ct.hasAlpha
+  case false => simp [ha] at h
+  case true =>
+    simp only [ha, Bool.not_true, Bool.false_eq_true, if_false, Option.some.injEq] at h
+    have hbd : i.bytesPerChannel = bdOf i.ihdr.depth := rfl
+    have hbpp : i.channelsPerPixel * i.bytesPerChannel = i.bppBytes := Nat.mul_comm _ _
+    rw [hbpp, hbd] at h
+    subst h
+    have hbpos : 0 < bdOf i.ihdr.depth := by unfold bdOf; split <;> decide
+    have hbb : i.bppBytes = bdOf i.ihdr.depth * i.ihdr.ct.channels := rfl
+    have hch : 2 ≤ i.ihdr.ct.channels := by
+      cases hc : i.ihdr.ct <;> simp [hc, ColorType.hasAlpha] at ha <;> simp [ColorType.channels]
+    have hbppos : 0 < i.bppBytes := by rw [hbb]; exact Nat.mul_pos hbpos (by omega)
+    obtain ⟨_, hpxlen⟩ := flatten_chunksExact i.bppBytes hbppos n i.data hlen
+    let f : Bytes → Bytes := fun px =>
+      if (px.drop (i.bppBytes - bdOf i.ihdr.depth)).all (· = 0) = true then List.replicate i.bppBytes 0 else px
+    have hj : chunksExact i.bppBytes ((chunksExact i.bppBytes i.data).flatMap f) =
+        (chunksExact i.bppBytes i.data).map f := by
+      apply chunks_flatMap _ _ hbppos
+      intro px hpx
+      simp only [f]
+      split
+      · simp
+      · exact hpxlen px hpx
+    have hjb : (⟨i.ihdr, (chunksExact i.bppBytes i.data).flatMap f⟩ : Img).bppBytes = i.bppBytes := rfl
+    refine ⟨rfl, rfl, rfl, ?_, ?_⟩
+    · simp only [pixelColours, storagePixels, List.length_map]
+      rw [hjb, hj, List.length_map]
+    · intro p hp
+      simp only [pixelColours, storagePixels] at hp
+      rw [hjb, hj, List.map_map, List.zip_map', List.mem_map] at hp
+      obtain ⟨px, hpx, rfl⟩ := hp
+      simp only [Function.comp, f]
+      split
+      · rename_i hz
+        have hl := hpxlen px hpx
+        have a1 := transparent_px_alpha i.ihdr.ct i.ihdr.depth px ha hd (by rw [hl, hbb]) (by rw [← hbb]; exact hz)
+        have a2 := transparent_px_alpha i.ihdr.ct i.ihdr.depth (List.replicate i.bppBytes 0) ha hd
+          (by rw [List.length_replicate, hbb]) (by
+            apply List.all_eq_true.mpr
+            intro x hx
+            have := List.mem_of_mem_drop hx
+            simp [List.mem_replicate] at this
+            simp [this.2])
+        exact ⟨by rw [a1, a2], fun hne => absurd a1 hne⟩
+      · exact alphaEq_refl _
+
+example : cleanedAlphaChannel ⟨⟨2, 1, .rgba, 8, false⟩, [9, 8, 7, 0, 1, 2, 3, 255]⟩ =
+    some ⟨⟨2, 1, .rgba, 8, false⟩, [0, 0, 0, 0, 1, 2, 3, 255]⟩ := by decide
+
+/-! ### whole rows and whole images under the per-filter rewrite -/
+
+theorem getD_length_of_all {bpp : Nat} (l : List Bytes) (h : ∀ p ∈ l, p.length = bpp) (k : Nat) (hk : k < l.length) :
+    (l.getD k []).length = bpp := by
+  rw [List.getD_eq_getElem?_getD, List.getElem?_eq_getElem hk]
+  exact h _ (List.getElem_mem hk)
+
+/-- the colour bytes written under a transparent pixel are exactly `cb` bytes -/
+theorem alphaColour_length (ft cb bpp i : Nat) (pixels prevPixels acc : List Bytes) (fo : Nat)
+    (hcb : cb ≤ bpp) (hp : ∀ p ∈ pixels, p.length = bpp) (hq : ∀ p ∈ prevPixels, p.length = bpp)
+    (hl : prevPixels.length = pixels.length) (ha : ∀ p ∈ acc, p.length = bpp) (hai : acc.length = i)
+    (hi : i < pixels.length) (hfo : fo < pixels.length) :
+    (alphaColour ft cb i pixels prevPixels acc fo).length = cb := by
+  have hup : ((prevPixels.getD i []).take cb).length = cb := by
+    rw [List.length_take, getD_length_of_all prevPixels hq i (by omega)]; omega
+  have hfirst : ((pixels.getD fo []).take cb).length = cb := by
+    rw [List.length_take, getD_length_of_all pixels hp fo hfo]; omega
+  have hleft : 0 < i → ((acc.getD (i - 1) []).take cb).length = cb := by
+    intro h0
+    rw [List.length_take, getD_length_of_all acc ha (i - 1) (by omega)]; omega
+  unfold alphaColour
+  simp only
+  split
+  · -- Sub
+    split
+    · exact hfirst
+    · exact hleft (by omega)
+  · exact hup
+  · split
+    · rw [List.length_map]; exact hup
+    · rw [List.length_zipWith, hleft (by omega), hup]; omega
+  · split
+    · rw [List.length_zipWith, hfirst, hup]; omega
+    · simp
+  · rw [List.length_take, getD_length_of_all pixels hp i hi]; omega
+
+/-- what the rewrite does to one pixel, in a form that composes: same length, same alpha bytes, and
+    nothing at all unless the pixel is fully transparent -/
+def pxKeep (cb : Nat) (px q : Bytes) : Prop :=
+  q.length = px.length ∧ q.drop cb = px.drop cb ∧ (pxTransparent cb px = false → q = px)
+
+theorem pxKeep_refl (cb : Nat) (px : Bytes) : pxKeep cb px px := ⟨rfl, rfl, fun _ => rfl⟩
+
+theorem pxKeep_trans {cb : Nat} {a b c : Bytes} (h1 : pxKeep cb a b) (h2 : pxKeep cb b c) : pxKeep cb a c := by
+  refine ⟨h2.1.trans h1.1, h2.2.1.trans h1.2.1, ?_⟩
+  intro ht
+  have hb := h1.2.2 ht
+  subst hb
+  exact h2.2.2 ht
+
+theorem fold_keep (ft cb bpp : Nat) (pixels prevPixels : List Bytes) (fo : Nat)
+    (hcb : cb ≤ bpp) (hp : ∀ p ∈ pixels, p.length = bpp) (hq : ∀ p ∈ prevPixels, p.length = bpp)
+    (hl : prevPixels.length = pixels.length) (hfo : fo < pixels.length) :
+    ∀ (l : List (Bytes × Nat)) (acc : List Bytes),
+      (∀ k (hk : k < l.length), l[k].2 = acc.length + k ∧ l[k].1.length = bpp ∧ l[k].2 < pixels.length) →
+      (∀ a ∈ acc, a.length = bpp) →
+      let r := l.foldl (fun acc (p : Bytes × Nat) =>
+        if pxTransparent cb p.1 then
+          acc ++ [alphaColour ft cb p.2 pixels prevPixels acc fo ++ p.1.drop cb]
+        else acc ++ [p.1]) acc
+      r.length = acc.length + l.length ∧ (∀ k (hk : k < acc.length), r[k]? = acc[k]?) ∧
+      ∀ k (hk : k < l.length), ∃ q, r[acc.length + k]? = some q ∧ pxKeep cb l[k].1 q := by
+  intro l
+  induction l with
+  | nil => intro acc _ _; simp
+  | cons p l ih =>
+    intro acc hidx hacc
+    simp only [List.foldl_cons]
+    have h0 := hidx 0 (by simp)
+    simp only [List.getElem_cons_zero, Nat.add_zero] at h0
+    obtain ⟨hi0, hlen0, hlt0⟩ := h0
+    -- the pixel appended in this step
+    let q : Bytes := if pxTransparent cb p.1 then alphaColour ft cb p.2 pixels prevPixels acc fo ++ p.1.drop cb else p.1
+    have hqkeep : pxKeep cb p.1 q := by
+      simp only [q]
+      cases ht : pxTransparent cb p.1
+      · simp only [Bool.false_eq_true, if_false]; exact pxKeep_refl _ _
+      · simp only [if_true]
+        have hc := alphaColour_length ft cb bpp p.2 pixels prevPixels acc fo hcb hp hq hl hacc hi0.symm hlt0 hfo
+        refine ⟨by rw [List.length_append, hc, List.length_drop, hlen0]; omega, ?_, fun h => by rw [ht] at h; cases h⟩
+        rw [List.drop_left' hc]
+    have hstep : (if pxTransparent cb p.1 = true then
+          acc ++ [alphaColour ft cb p.2 pixels prevPixels acc fo ++ p.1.drop cb] else acc ++ [p.1]) = acc ++ [q] := by
+      simp only [q]; split <;> rfl
+    rw [hstep]
+    have hacc' : ∀ a ∈ acc ++ [q], a.length = bpp := by
+      intro a ha
+      cases List.mem_append.mp ha with
+      | inl h => exact hacc a h
+      | inr h =>
+        have : a = q := by simpa using h
+        rw [this, hqkeep.1, hlen0]
+    have hidx' : ∀ k (hk : k < l.length), l[k].2 = (acc ++ [q]).length + k ∧ l[k].1.length = bpp ∧ l[k].2 < pixels.length := by
+      intro k hk
+      have := hidx (k + 1) (by simp; omega)
+      simp only [List.getElem_cons_succ] at this
+      refine ⟨?_, this.2.1, this.2.2⟩
+      rw [this.1]; simp; omega
+    have := ih (acc ++ [q]) hidx' hacc'
+    simp only [List.length_append, List.length_cons, List.length_nil] at this
+    obtain ⟨h1, h2, h3⟩ := this
+    refine ⟨by simp only [List.length_cons]; omega, ?_, ?_⟩
+    · intro k hk
+      rw [h2 k (by omega)]
+      simp [List.getElem?_append_left hk]
+    · intro k hk
+      cases k with
+      | zero =>
+        refine ⟨q, ?_, by simpa using hqkeep⟩
+        rw [Nat.add_zero, h2 acc.length (by omega)]
+        simp
+      | succ k =>
+        simp only [List.length_cons] at hk
+        obtain ⟨q', hq1, hq2⟩ := h3 k (by omega)
+        refine ⟨q', ?_, by simpa using hq2⟩
+        rw [← hq1]; congr 1; omega
+
+/-- the rewrite of a list of whole pixels: as many pixels, each kept in the sense of `pxKeep` -/
+theorem pixels_keep (ft cb bpp : Nat) (pixels prevPixels : List Bytes)
+    (hcb : cb ≤ bpp) (hp : ∀ p ∈ pixels, p.length = bpp) (hq : ∀ p ∈ prevPixels, p.length = bpp)
+    (hl : prevPixels.length = pixels.length) :
+    (optimizeAlphaPixels ft cb pixels prevPixels).length = pixels.length ∧
+    ∀ k (hk : k < pixels.length), ∃ q, (optimizeAlphaPixels ft cb pixels prevPixels)[k]? = some q ∧
+      pxKeep cb pixels[k] q := by
+  cases hpx : pixels with
+  | nil => simp [optimizeAlphaPixels]
+  | cons p0 ps =>
+    rw [← hpx]
+    have hne : 0 < pixels.length := by rw [hpx]; simp
+    unfold optimizeAlphaPixels
+    have hfo : (pixels.findIdx? fun px => (px.drop cb).any (· ≠ 0)).getD 0 < pixels.length := by
+      cases hf : pixels.findIdx? fun px => (px.drop cb).any (· ≠ 0) with
+      | none => simpa using hne
+      | some idx =>
+        obtain ⟨hlt, _⟩ := List.findIdx?_eq_some_iff_getElem.mp hf
+        simpa using hlt
+    have := fold_keep ft cb bpp pixels prevPixels _ hcb hp hq hl hfo pixels.zipIdx []
+      (by
+        intro k hk
+        simp only [List.length_zipIdx] at hk
+        simp only [List.getElem_zipIdx, List.length_nil, Nat.zero_add]
+        exact ⟨trivial, hp _ (List.getElem_mem hk), hk⟩)
+      (by intro a ha; cases ha)
+    simp only [List.length_nil, Nat.zero_add, List.length_zipIdx] at this
+    obtain ⟨h1, _, h3⟩ := this
+    refine ⟨h1, ?_⟩
+    intro k hk
+    obtain ⟨q, hq1, hq2⟩ := h3 k hk
+    exact ⟨q, hq1, by simpa using hq2⟩
+
+/-- two rows of whole pixels, related pixel by pixel -/
+def RowKeep (cb bpp : Nat) (row row' : Bytes) : Prop :=
+  (chunksExact bpp row').length = (chunksExact bpp row).length ∧
+  ∀ k (hk : k < (chunksExact bpp row).length), ∃ q, (chunksExact bpp row')[k]? = some q ∧
+    pxKeep cb (chunksExact bpp row)[k] q
+
+theorem RowKeep_refl (cb bpp : Nat) (row : Bytes) : RowKeep cb bpp row row :=
+  ⟨rfl, fun k hk => ⟨_, List.getElem?_eq_getElem hk, pxKeep_refl _ _⟩⟩
+
+theorem RowKeep_trans {cb bpp : Nat} {a b c : Bytes} (h1 : RowKeep cb bpp a b) (h2 : RowKeep cb bpp b c) :
+    RowKeep cb bpp a c := by
+  refine ⟨h2.1.trans h1.1, ?_⟩
+  intro k hk
+  obtain ⟨q, hq, hk1⟩ := h1.2 k hk
+  have hkb : k < (chunksExact bpp b).length := by rw [h1.1]; exact hk
+  obtain ⟨r, hr, hk2⟩ := h2.2 k hkb
+  have : (chunksExact bpp b)[k] = q := by
+    have := List.getElem?_eq_getElem hkb
+    rw [hq] at this; exact (Option.some.inj this).symm
+  rw [this] at hk2
+  exact ⟨r, hr, pxKeep_trans hk1 hk2⟩
+
+/-- **One row**: whatever the filter type and the previous line, the alpha rewrite of a row of `m`
+    whole pixels gives a row of the same length whose pixels are kept in the sense of `pxKeep`. -/
+theorem optimizeAlpha_rowKeep (ft bpp cb m : Nat) (data prev : Bytes) (hb : 0 < bpp) (hcb : cb ≤ bpp)
+    (hd : data.length = m * bpp) (hpv : prev.length = data.length) :
+    (optimizeAlpha ft bpp data prev cb).length = data.length ∧ RowKeep cb bpp data (optimizeAlpha ft bpp data prev cb) := by
+  unfold optimizeAlpha
+  by_cases hft : ft = 0 ∨ ft > 4
+  · rw [if_pos hft]; exact ⟨rfl, RowKeep_refl _ _ _⟩
+  · rw [if_neg hft]
+    simp only
+    obtain ⟨hfl, hpl⟩ := flatten_chunksExact bpp hb m data hd
+    obtain ⟨_, hql⟩ := flatten_chunksExact bpp hb m prev (hpv.trans hd)
+    have hnp := chunksExact_length bpp hb m data hd
+    have hnq := chunksExact_length bpp hb m prev (hpv.trans hd)
+    obtain ⟨hrl, hrk⟩ := pixels_keep ft cb bpp (chunksExact bpp data) (chunksExact bpp prev) hcb hpl hql (hnq.trans hnp.symm)
+    generalize optimizeAlphaPixels ft cb (chunksExact bpp data) (chunksExact bpp prev) = r at hrl hrk
+    have hrlen : ∀ q ∈ r, q.length = bpp := by
+      intro q hq
+      obtain ⟨k, hk⟩ := List.getElem?_of_mem hq
+      have hkl : k < (chunksExact bpp data).length := by
+        rw [← hrl]; exact lt_of_getElem?_some _ _ _ hk
+      obtain ⟨q', hq', hkeep⟩ := hrk k hkl
+      rw [hk] at hq'
+      have : q = q' := Option.some.inj hq'
+      subst this
+      rw [hkeep.1]; exact hpl _ (List.getElem_mem hkl)
+    have htail : data.drop (bpp * (chunksExact bpp data).length) = [] := by
+      apply List.drop_eq_nil_of_le
+      rw [hnp, hd, Nat.mul_comm]; exact Nat.le_refl _
+    rw [htail, List.append_nil]
+    have hchunks : chunksExact bpp r.flatten = r := chunksExact_flatten bpp hb r hrlen
+    have hlen : r.flatten.length = data.length := by
+      have : ∀ (l : List Bytes), (∀ q ∈ l, q.length = bpp) → l.flatten.length = l.length * bpp := by
+        intro l
+        induction l with
+        | nil => intro _; simp
+        | cons a l ih =>
+          intro h
+          simp only [List.flatten_cons, List.length_append, List.length_cons]
+          rw [ih (fun q hq => h q (List.mem_cons_of_mem _ hq)), h a List.mem_cons_self, Nat.add_mul]
+          omega
+      rw [this r hrlen, hrl, hnp, hd]
+    refine ⟨hlen, ?_⟩
+    unfold RowKeep
+    rw [hchunks]
+    exact ⟨hrl, hrk⟩
+
+/-- one kept pixel means the same, up to invisible colour -/
+theorem pxKeep_alphaEq (ct : ColorType) (d : Nat) (px q : Bytes) (ha : ct.hasAlpha = true)
+    (hd : d = 8 ∨ d = 16) (hlen : px.length = bdOf d * ct.channels)
+    (hk : pxKeep (bdOf d * ct.channels - bdOf d) px q) :
+    alphaEq (colourOf ct d (samplesOf d px)) (colourOf ct d (samplesOf d q)) := by
+  cases ht : pxTransparent (bdOf d * ct.channels - bdOf d) px
+  · rw [hk.2.2 ht]; exact alphaEq_refl _
+  · have a1 := transparent_px_alpha ct d px ha hd hlen ht
+    have a2 := transparent_px_alpha ct d q ha hd (hk.1.trans hlen) (by
+      unfold pxTransparent at ht; rw [hk.2.1]; exact ht)
+    exact ⟨by rw [a1, a2], fun hne => absurd a1 hne⟩
+
+/-- rows of whole pixels related row by row -/
+inductive RowsKeep (cb bpp : Nat) : List Bytes → List Bytes → Prop
+  | nil : RowsKeep cb bpp [] []
+  | cons {row row' : Bytes} {rows rows' : List Bytes} (m : Nat) (hm : row.length = m * bpp)
+      (hl : row'.length = row.length) (hk : RowKeep cb bpp row row') (t : RowsKeep cb bpp rows rows') :
+      RowsKeep cb bpp (row :: rows) (row' :: rows')
+
+/-- **Whole image**: if every stored row is a kept version of the original row (as after any number
+    of alpha rewrites with any filter types), the stored image shows the same picture up to the colour
+    of fully transparent pixels. -/
+theorem rows_keep_visible (ihdr : Ihdr) (rows rows' : List Bytes) (ha : ihdr.ct.hasAlpha = true)
+    (hd : ihdr.depth = 8 ∨ ihdr.depth = 16)
+    (h : RowsKeep (bdOf ihdr.depth * ihdr.ct.channels - bdOf ihdr.depth) (bdOf ihdr.depth * ihdr.ct.channels) rows rows') :
+    sameVisiblePicture ⟨ihdr, rows.flatten⟩ ⟨ihdr, rows'.flatten⟩ := by
+  have hbpos : 0 < bdOf ihdr.depth := by unfold bdOf; split <;> decide
+  have hch : 2 ≤ ihdr.ct.channels := by
+    cases hc : ihdr.ct <;> simp [hc, ColorType.hasAlpha] at ha <;> simp [ColorType.channels]
+  have hb : 0 < bdOf ihdr.depth * ihdr.ct.channels := Nat.mul_pos hbpos (by omega)
+  refine ⟨rfl, rfl, rfl, ?_⟩
+  simp only [pixelColours, storagePixels]
+  have hbb : ∀ d : Bytes, (⟨ihdr, d⟩ : Img).bppBytes = bdOf ihdr.depth * ihdr.ct.channels := fun _ => rfl
+  rw [hbb, hbb]
+  induction h with
+  | nil => simp [chunksExact_nil]
+  | cons m hm hl hk t ih =>
+    rename_i row row' rows rows'
+    simp only [List.flatten_cons]
+    rw [chunksExact_append_whole _ hb m row _ hm, chunksExact_append_whole _ hb m row' _ (hl.trans hm)]
+    simp only [List.map_append, List.length_append]
+    have hn1 := chunksExact_length _ hb m row hm
+    have hn2 := chunksExact_length _ hb m row' (hl.trans hm)
+    obtain ⟨ihl, ihz⟩ := ih
+    refine ⟨by simp only [List.length_map] at ihl ⊢; omega, ?_⟩
+    intro p hp
+    rw [List.zip_append (by simp [hn1, hn2])] at hp
+    cases List.mem_append.mp hp with
+    | inr hp2 => exact ihz p hp2
+    | inl hp1 =>
+      obtain ⟨k, hk'⟩ := List.getElem?_of_mem hp1
+      rw [List.getElem?_zip_eq_some] at hk'
+      obtain ⟨h1, h2⟩ := hk'
+      rw [List.getElem?_map] at h1 h2
+      have hkl : k < (chunksExact (bdOf ihdr.depth * ihdr.ct.channels) row).length := by
+        cases hx : (chunksExact (bdOf ihdr.depth * ihdr.ct.channels) row)[k]? with
+        | none => rw [hx] at h1; cases h1
+        | some x => exact lt_of_getElem?_some _ _ _ hx
+      obtain ⟨q, hq, hkeep⟩ := hk.2 k hkl
+      rw [List.getElem?_eq_getElem hkl] at h1
+      rw [hq] at h2
+      simp only [Option.map_some, Option.some.injEq] at h1 h2
+      rw [← h1, ← h2]
+      obtain ⟨_, hpl⟩ := flatten_chunksExact _ hb m row hm
+      exact pxKeep_alphaEq ihdr.ct ihdr.depth _ q ha hd (hpl _ (List.getElem_mem hkl)) hkeep
+
+/-- the lines with their data replaced -/
+def withData (lines : List (UInt8 × Bytes × Option Nat × Nat)) (rows : List Bytes) : List (UInt8 × Bytes × Option Nat × Nat) :=
+  List.zipWith (fun l d => (l.1, d, l.2.2.1, l.2.2.2)) lines rows
+
+/-- **What is written is the plain filtering of the rewritten rows, and the rewritten rows are kept
+    versions of the original rows.** Hence (C19's round trip) a decoder recovers exactly the rewritten
+    rows, and (`rows_keep_visible`) they show the same picture up to invisible colour. -/
+theorem filterLinesStdAlpha_spec (strategy bpp ab : Nat) (hb : 0 < bpp) (hab : ab ≤ bpp) :
+    ∀ (lines : List (UInt8 × Bytes × Option Nat × Nat)) (prevPass : Option Nat) (prevLine acc : Bytes)
+      (rows0 : List Bytes) (out : Bytes) (rows : List Bytes),
+      (∀ l ∈ lines, ∃ m, l.2.1.length = m * bpp) →
+      filterLinesStdAlpha strategy bpp ab lines prevPass prevLine acc rows0 = some (out, rows) →
+      ∃ rows', rows = rows0.reverse ++ rows' ∧
+        filterLinesStd strategy bpp (withData lines rows') prevPass prevLine acc = some out ∧
+        RowsKeep (bpp - ab) bpp (lines.map (·.2.1)) rows' := by
+  intro lines
+  induction lines with
+  | nil =>
+    intro prevPass prevLine acc rows0 out rows _ h
+    simp only [filterLinesStdAlpha, Option.some.injEq, Prod.mk.injEq] at h
+    obtain ⟨rfl, rfl⟩ := h
+    exact ⟨[], by simp, by simp [withData, filterLinesStd], RowsKeep.nil⟩
+  | cons l lines ih =>
+    intro prevPass prevLine acc rows0 out rows hw h
+    obtain ⟨f, data, pass, px⟩ := l
+    simp only [filterLinesStdAlpha] at h
+    obtain ⟨m, hm⟩ := hw (f, data, pass, px) List.mem_cons_self
+    simp only at hm
+    generalize hprev : (if prevPass ≠ pass ∨ data.length ≠ prevLine.length then List.replicate data.length 0 else prevLine) = prev at h
+    generalize hft : standardRowFilter strategy _ = ft at h
+    have hpl : prev.length = data.length := by
+      rw [← hprev]; split
+      · simp
+      · rename_i hn
+        have : ¬ (data.length ≠ prevLine.length) := fun x => hn (Or.inr x)
+        omega
+    cases hfa : filterLineAlpha ft bpp data prev ab with
+    | none => simp [hfa] at h
+    | some r =>
+      obtain ⟨data', o⟩ := r
+      simp only [hfa] at h
+      obtain ⟨rows', hr1, hr2, hr3⟩ := ih pass data' (acc ++ o) (data' :: rows0) out rows
+        (fun l hl => hw l (List.mem_cons_of_mem _ hl)) h
+      -- unpack filterLineAlpha
+      unfold filterLineAlpha at hfa
+      split at hfa
+      · cases hfa
+      · generalize hdd : (if ab ≠ 0 then optimizeAlpha ft bpp data prev (bpp - ab) else data) = dd at hfa
+        cases hfl : filterLine ft bpp dd prev with
+        | none => simp [hfl] at hfa
+        | some o' =>
+          simp only [hfl, Option.map_some, Option.some.injEq, Prod.mk.injEq] at hfa
+          obtain ⟨hd', ho⟩ := hfa
+          subst ho
+          subst hd'
+          have hkeep : dd.length = data.length ∧ RowKeep (bpp - ab) bpp data dd := by
+            rw [← hdd]
+            split
+            · exact optimizeAlpha_rowKeep _ bpp (bpp - ab) m data prev hb (Nat.sub_le _ _) hm hpl
+            · exact ⟨rfl, RowKeep_refl _ _ _⟩
+          refine ⟨dd :: rows', by rw [hr1]; simp, ?_, RowsKeep.cons m hm hkeep.1 hkeep.2 hr3⟩
+          simp only [withData, List.zipWith_cons_cons, filterLinesStd]
+          rw [hkeep.1, hprev, hft, hfl]
+          exact hr2
 
 /-- Non-vacuity: a Sub rewrite of a transparent pixel between two opaque ones. -/
 example : optimizeAlphaPixels 1 3 [[1,2,3,255], [9,9,9,0], [4,5,6,255]] [[0,0,0,0],[0,0,0,0],[0,0,0,0]]
